@@ -201,6 +201,9 @@ def _scenarios(prog):
         # the hooks of what follows (the first transition of the new instance included) is handled like in any other
         'reinc': [{'at': 'q', 'act': ['reincarnate']}],
         'reinckill': [{'at': 'q', 'act': ['reincarnate']}, {'at': 'q', 'act': ['kill', 'rk']}],
+        # ... and the recreated instance is failed from outside where it stands (its first transition is the one out of the state
+        # it was recreated in, and a hook of exactly that transition is the faulty one)
+        'reincfail': [{'at': 'q', 'act': ['reincarnate']}, {'at': 'q', 'act': ['fail', 'rf']}],
         'fail': [{'at': mid, 'act': ['fail', 'ff']}],
         'failq': [{'at': 'q', 'act': ['fail', 'fq']}],
     }
@@ -446,6 +449,11 @@ def run_case(case):
                 break
             e = e.__cause__ or e.__context__
             seen += 1
+    if fin['state'] == 'excepted' and rec.get('future_unretrieved'):
+        # ... nor does it later: a failed process that nobody waits for (launch(), a launcher with nowait) is collected with the
+        # exception on its future marked as never looked at, and asyncio then reports it to the handler of the loop
+        viol.append(V('escapes-on-collection', 'escapes-on-collection:' + sig_tail, 'the process is EXCEPTED and the exception on its future is flagged as never retrieved: it is reported to the event loop when the process is collected'))
+    obs['future_flag_checked'] = int(rec.get('future_unretrieved') is not None)
     if rec['task'] not in (['done'],):
         if not (rec['task'] == ['pending'] and not fin['terminated']):
             viol.append(V('stepping-task', 'stepping-task:%s:%s' % (rec['task'][0], sig_tail), 'stepping task ended %s' % (rec['task'],)))
